@@ -88,6 +88,7 @@ type ReqCtx struct {
 	Bad    []string       // parameter-accuracy violations found locally (C20)
 	ArgLog map[string]string
 	Check  func(rc *ReqCtx, p *graphql.ResolveParams, path string) // optional extra check (C20)
+	Ext    *ExtRun                                                 // when set, resolver events are mirrored into the extension log
 }
 
 type reqKey struct{}
@@ -510,6 +511,25 @@ func (w *World) gate(rc *ReqCtx, site, info string) {
 
 func (w *World) resolver(typeName, fieldName string) graphql.FieldResolveFn {
 	coord := typeName + "." + fieldName
+	inner := w.resolverInner(coord)
+	return func(p graphql.ResolveParams) (v interface{}, err error) {
+		rc := ReqOf(p.Context)
+		if rc != nil && rc.Ext != nil {
+			path := PathString(p.Info.Path)
+			rc.Ext.logf("R+:%s", path)
+			defer func() {
+				if r := recover(); r != nil {
+					rc.Ext.logf("R-:%s panic", path)
+					panic(r)
+				}
+				rc.Ext.logf("R-:%s %s %s", path, valKind(v), errInfo(err))
+			}()
+		}
+		return inner(p)
+	}
+}
+
+func (w *World) resolverInner(coord string) graphql.FieldResolveFn {
 	return func(p graphql.ResolveParams) (interface{}, error) {
 		rc := ReqOf(p.Context)
 		path := PathString(p.Info.Path)
